@@ -1570,6 +1570,51 @@ func (fc *FnCtx) activeFrames() []frameSpec {
 			out = append(out, frameSpec{lf.targets, lf.ac, "loop modifies " + lf.text, fmt.Sprintf("loop%d.", fc.loopOrd[h])})
 		}
 	}
+	// behavioural subtyping covers the frame too: callers through the interface / function type rely on ITS modifies
+	// clause, so every write of an implementor must also be inside that frame
+	if fc.c != nil {
+		for _, impl := range fc.c.Impl {
+			ic := fc.e.specs.Contracts["functype:"+impl]
+			if ic == nil {
+				ic = fc.e.specs.Contracts["iface:"+impl]
+			}
+			if ic == nil || !ic.HasMod {
+				continue
+			}
+			out = append(out, frameSpec{fc.implTargets(impl, ic), fc.entry.ac, "modifies " + strings.Join(ic.Modifies, ", ") + " (of " + impl + ")", "impl." + impl + "."})
+		}
+	}
+	return out
+}
+
+// implTargets: the modifies clause of a contract this function implements, with that contract's parameter names bound
+// to this function's parameters by position.
+func (fc *FnCtx) implTargets(name string, ic *Contract) []modTarget {
+	if t, ok := fc.implT[name]; ok {
+		return t
+	}
+	env := fc.newEnv(fc.entry, fc.entry)
+	env.vars = map[string]V{}
+	names := ic.Params
+	if ic.Kind == "functype" {
+		names = names[1:]
+	}
+	for i, n := range names {
+		if i < len(fc.fn.Params) {
+			env.vars[n] = fc.vals[fc.fn.Params[i]]
+		}
+	}
+	saved := fc.reach
+	fc.reach = "true"
+	out := []modTarget{}
+	for _, m := range ic.Modifies {
+		out = append(out, env.resolveTarget(m)...)
+	}
+	fc.reach = saved
+	if fc.implT == nil {
+		fc.implT = map[string][]modTarget{}
+	}
+	fc.implT[name] = out
 	return out
 }
 
